@@ -16,8 +16,9 @@ import os
 from vlib import bootstrap, build, gen, monitors, ref, subject
 
 PROPERTY = 'C04'
-RULE = ('exhaustive: 4 templates (chain of 3, diamond, range sum with a '
-        'formula member, two-sheet chain) x ALL histories up to length 4 '
+RULE = ('exhaustive: 7 templates (chain of 3, diamond, range sum with a '
+        'formula member, two-sheet chain, an input that does not exist yet, '
+        'inputs that change type but not ==) x ALL histories up to length 4 '
         '(quick) / 5 (thorough) over {set(input, 2 values), evaluate(each '
         'cell), get(each cell)}; sampled: random acyclic models of 6-40 cells '
         'with ranges, histories of 30-120 steps incl. hostile steps '
@@ -133,6 +134,21 @@ class ComputedLog:
 
 
 COMPUTED = ComputedLog()
+
+
+def more_templates():
+    one = ('lit', 1, '1')
+    # an input that does not exist when the model is compiled
+    yield 'ghost-input', {
+        K('A1'): 1, K('B1'): F(('bin', '+', r('A1'), r('G9'))),
+        K('C1'): F(('call', 'ISBLANK', [r('G9')]))}, [K('G9')], [5, 0]
+    # type-sensitive formulas over an input that changes type but not "=="
+    yield 'typed-input', {
+        K('A1'): 1, K('B1'): F(('call', 'ISNUMBER', [r('A1')])),
+        K('C1'): F(('bin', '+', r('A1'), one))}, [K('A1')], [True, 1]
+    yield 'typed-input-zero', {
+        K('A1'): 0, K('B1'): F(('call', 'ISNUMBER', [r('A1')])),
+        K('C1'): F(('call', 'ISTEXT', [r('A1')]))}, [K('A1')], [False, 0]
 
 
 class History:
@@ -275,7 +291,8 @@ class History:
 
 def run_exhaustive(ctx, maxlen):
     idx = 0
-    for label, cells, inputs, values in templates():
+    for label, cells, inputs, values in list(templates()) + list(
+            more_templates()):
         keys = list(cells)
         ops = [('set', k, v) for k in inputs for v in values]
         ops += [('evaluate', k, None) for k in keys]
@@ -353,7 +370,7 @@ def run_sampled(ctx, count):
             x = rng.random()
             if x < 0.3:
                 k = rng.choice(m.inputs)
-                v = rng.choice([0, 1, 2, 3, -1, 0.5, 10, 7, 2.5])
+                v = rng.choice([0, 1, 2, 3, -1, 0.5, 10, 7, 2.5, True, False])
                 y = rng.random()
                 if use_names and y < 0.4:
                     nm = [n for n, t in names.items()
@@ -363,7 +380,7 @@ def run_sampled(ctx, count):
                         ctx.event('name_sets')
                         continue
                 if y > 0.9:
-                    H.do_set(k, v, lib_value=T.Number(v))
+                    H.do_set(k, v, lib_value=T.ExcelType.cast_from_native(v))
                     ctx.event('hostile_steps')
                 else:
                     H.do_set(k, v)
